@@ -207,17 +207,20 @@ theorem missing_label_keyerror {s : Store} {k : Nat} (hl : locate s k = .missing
   refine ⟨?_, ?_, ?_, ?_, ?_, ?_⟩
   · unfold getLabel
     cases s.get name <;> simp [hl, readLoc]
-  · simp [step, setLabel, hl]
+  · simp only [step, setLabel]
+    cases s.get name <;> simp [hl]
   · intro kb st
     unfold getLabelSlice
     cases s.get name <;> simp [hres1]
   · intro kb st
-    simp [step, setLabelSlice, hres1]
+    simp only [step, setLabelSlice]
+    cases s.get name <;> simp [hres1]
   · intro ka st hka
     unfold getLabelSlice
     cases s.get name <;> simp [hres2 ka st hka]
   · intro ka st hka
-    simp [step, setLabelSlice, hres2 ka st hka]
+    simp only [step, setLabelSlice]
+    cases s.get name <;> simp [hres2 ka st hka]
 
 /-- For list-like spans "not in the span" is literal. -/
 theorem missing_label_keyerror_seq {s : Store} (hk : s.spanKind = .seq) {k : Nat} (hm : k ∉ s.span)
